@@ -86,10 +86,13 @@ CLAIMS["C15"] = ("Proof-level for the incremental-update plumbing. (Verus, extra
     "chunk_start_idx(i) == i - i % 1024. (Kani, all u64) chunk_start_idx(i) == 1024*chunk_idx(i) <= i < +1024, monotone; the in-chunk index used by apply_from is always inside the chunk. "
     "apply_from / rewind_prior / pad_left themselves (peekable iterators over a hashing MMR), path independence across whole histories, restart and rejection of tampered output roots are not decided.",
     VERUS_TB + KANI_TB + "BitmapAccumulator::apply is an abstract callee whose stated precondition (sorted, aligned start) is taken from its body's own comment.", "Verus contracts on extracted real functions + Kani full-domain harness", "6 C15")
-CLAIMS["C19"] = ("Header level, proof-level (Kani): for ALL 11-byte headers x chain types x versions, wrong magic is refused having read only the magic bytes; a known type is accepted only with "
-    "msg_len <= 4 x the published per-type limit (independent table); unknown types only within the default limit; nothing within limits is refused; MsgHeader round trip. Verus: negotiate_protocol_version returns the lower version; the self-connection nonce ring (next_nonce) always contains the nonce it hands out, only ever holds old nonces plus the new one, loses at most one entry and only when full, and stays below its cap. Codec buffering under "
-    "fragmentation, Headers batching and socket-level handshake refusals are not under contract.",
-    KANI_TB + VERUS_TB, "Kani complete harnesses on the real read/write functions + Verus contracts on extracted handshake functions", "6 C19")
+CLAIMS["C19"] = ("Frame level, proof-level. (Kani) for ALL 11-byte headers x chain types x versions, wrong magic is refused having read only the magic bytes; a known type is accepted only with msg_len <= 4 x the published per-type limit "
+    "(independent table); unknown types only within the default limit; nothing within limits is refused; MsgHeader round trip. (Verus, the whole real text of Codec::read_inner and next_len) the frame state machine never underflows or indexes out of "
+    "range in its length arithmetic (found violated on the pinned tree for a Headers frame with item count 0: finding F9, repaired); a Headers batch holds 1..=32 headers, is returned with remaining == 0 only when the frame's announced bytes are "
+    "exactly used up, and after a non-final batch the state expects exactly `remaining` more items; bytes-without-items and items-without-bytes are refused with the state reset; an unknown type is skipped and the state reset; next_len never exceeds "
+    "what the current state announces. (Verus) negotiate_protocol_version returns the lower version; the self-connection nonce ring always contains the nonce it hands out, only ever holds old nonces plus the new one, loses at most one entry and only "
+    "when full, and stays below its cap. Byte-level fragmentation (the buffer is an abstract byte queue), I/O timeouts, attachments' contents and the socket-level genesis/self-connection refusals are not decided.",
+    KANI_TB + VERUS_TB + "BytesMut/TcpStream/BufReader are abstract (lengths only); mem::swap/replace/take via vstd / assume_specification.", "Kani complete harnesses on the real read/write functions + Verus contracts on the extracted codec and handshake functions", "6 C19")
 CLAIMS["C20"] = ("The encodings and the message layer, proof-level. (Kani, full domain) derivation path <-> identifier and serialized path are exact inverses for every depth byte and all u32 elements; parent_path / "
     "last_path_index for depths 0..=4; the range-proof message: for EVERY identifier with depth 0..=4, both switch modes and every amount, check_output on the builder's own proof_message recovers exactly that identifier and mode "
     "(ProofBuilder and LegacyProofBuilder), a different amount is not recognised, and an arbitrary 20-byte message is accepted only with a zero prefix, a known switch byte and a matching commitment. (Verus, extracted text) "
